@@ -50,9 +50,17 @@ Modes(n) == 0..(n - 1)
 (* in full: a negative key DENOTES mode n + k -- for the assignment AND for the double-constraint    *)
 (* rule (two keywords reaching the same mode, under whatever spelling, are rejected).                *)
 NormMode(n, k)   == IF k < 0 THEN n + k ELSE k
-ItemModes(n, it) == IF it.form = "scalar" THEN Modes(n) ELSE {NormMode(n, it.modes[j]) : j \in 1..Len(it.modes)}
+(* FALSY VALUES.  A keyword may be GIVEN and still request nothing: configuration code forwards      *)
+(* `monotonicity=False`, `l1_reg=0.0`, `hard_sparsity=0`, a list entry 0 / False, a dict value       *)
+(* None / False for "this mode: off".  The documentation says so for lists ("falsy entries") and the  *)
+(* scalar test is a truth test; the specification takes the one reading for every form: a parameter  *)
+(* written 0 here (rendered False, 0, 0.0, numpy.False_ or None by the binding, item field `falsy`)   *)
+(* requests NOTHING on its mode -- neither a constraint nor a double constraint.                     *)
+ItemModes(n, it) == IF it.form = "scalar" THEN (IF it.pars[1] = 0 THEN {} ELSE Modes(n))
+                    ELSE {NormMode(n, it.modes[j]) : j \in {j \in 1..Len(it.modes) : it.pars[j] # 0}}
 ItemPar(n, it, m) == IF it.form = "scalar" THEN it.pars[1]
                      ELSE it.pars[CHOOSE j \in 1..Len(it.modes) : NormMode(n, it.modes[j]) = m]
+FalsySpellings == {"None", "False", "0", "0.0", "npFalse"}
 
 \* every (mode, kind, parameter) the user asked for
 Requests(n, items) ==
@@ -86,11 +94,13 @@ Sequential(n, items) == Register(n, items, [rej |-> FALSE, tab |-> [m \in Modes(
 
 Reorder(items, p) == [j \in 1..Len(items) |-> items[p[j]]]
 \* the same dict written with its (mode, parameter) pairs in another order (p: a permutation)
-Rekey(it, p) == [kind |-> it.kind, form |-> it.form, modes |-> [j \in 1..Len(it.modes) |-> it.modes[p[j]]],
+Rekey(it, p) == [kind |-> it.kind, form |-> it.form, falsy |-> it.falsy, modes |-> [j \in 1..Len(it.modes) |-> it.modes[p[j]]],
                  pars |-> [j \in 1..Len(it.pars) |-> it.pars[p[j]]]]
-\* canonical spelling: a dict over the denoted modes, ascending, non-negative keys
+\* canonical spelling: a dict over the REQUESTED modes only (falsy entries dropped), ascending,
+\* non-negative keys -- the theorem "Requests(AsDict(..)) = Requests(..)" in MapOK therefore says that
+\* form, key spelling, key order and falsy entries are all notation
 AsDict(n, it) == LET ms == SortedSeq(ItemModes(n, it))
-                      IN  [kind |-> it.kind, form |-> "dict", modes |-> ms,
+                      IN  [kind |-> it.kind, form |-> "dict", falsy |-> "None", modes |-> ms,
                            pars |-> [j \in 1..Len(ms) |-> ItemPar(n, it, ms[j])]]
 
 \* ---- theorems about the mapping (TLC, every enumerated specification)
@@ -134,19 +144,34 @@ KeyOrders(S, which) ==
     IF which = "all" THEN {[j \in 1..Len(asc) |-> asc[p[j]]] : p \in Permutations(1..Len(asc))}
     ELSE IF which = "ends" THEN {asc, Reversed(asc)}
     ELSE {asc}
-WithPars(n, k, f, ms) == [kind |-> k, form |-> f, modes |-> ms, pars |-> [j \in 1..Len(ms) |-> DomPar(k, NormMode(n, ms[j]))]]
+WithPars(n, k, f, ms) == [kind |-> k, form |-> f, falsy |-> "None", modes |-> ms, pars |-> [j \in 1..Len(ms) |-> DomPar(k, NormMode(n, ms[j]))]]
 \* spellings of the keys: the last mode written -1; every key written negative
 NegLast(n, ms) == [j \in 1..Len(ms) |-> IF ms[j] = n - 1 THEN -1 ELSE ms[j]]
 AllNeg(n, ms)  == [j \in 1..Len(ms) |-> ms[j] - n]
 Spellings(n, ms, which) ==
     IF which = "all" THEN {ms, NegLast(n, ms), AllNeg(n, ms)}
+    ELSE IF which = "plain" THEN {ms}
     ELSE IF which = "ends" /\ ms = SortedSeq(SeqRange(ms)) THEN {ms, NegLast(n, ms)}
     ELSE {ms}
 \* per-mode parameters are DISTINCT (DomPar depends on the mode) for counts, radii and penalties
 ItemsOf(n, k, which) ==
-         {[kind |-> k, form |-> "scalar", modes |-> <<>>, pars |-> <<DomPar(k, 1)>>]}
+         {[kind |-> k, form |-> "scalar", falsy |-> "None", modes |-> <<>>, pars |-> <<DomPar(k, 1)>>]}
     \cup {WithPars(n, k, "list", SortedSeq(S)) : S \in SUBSET Modes(n)}
     \cup UNION {UNION {{WithPars(n, k, "dict", sp) : sp \in Spellings(n, ms, which)} : ms \in KeyOrders(S, which)} : S \in SUBSET Modes(n)}
+\* a keyword that is GIVEN but requests nothing: falsy scalar; dict / list whose listed values are falsy
+OffKinds(n) == {"non_negative", "l1_reg", "normalize", "hard_sparsity"} \cap KindsFor(n)   \* first, early, middle, last in the keyword order
+ZeroItem(k, f, ms) == [kind |-> k, form |-> f, falsy |-> "False", modes |-> ms, pars |-> [j \in 1..Len(ms) |-> 0]]
+OffItems(n, k) ==
+         {[kind |-> k, form |-> "scalar", falsy |-> "False", modes |-> <<>>, pars |-> <<0>>]}
+    \cup {ZeroItem(k, "dict", <<m>>) : m \in {0, n - 1}} \cup {ZeroItem(k, "dict", SortedSeq(Modes(n)))}
+    \cup {ZeroItem(k, "list", SortedSeq(Modes(n)))}
+\* a per-mode keyword that ALSO lists one mode it does not constrain, with a falsy value
+Mixed(n, it) ==
+    LET z  == CHOOSE m \in Modes(n) \ ItemModes(n, it) : \A k \in Modes(n) \ ItemModes(n, it) : m <= k
+        ms == SortedSeq(SeqRange(it.modes) \cup {z})
+    IN  [kind |-> it.kind, form |-> it.form, falsy |-> "False", modes |-> ms,
+         pars |-> [j \in 1..Len(ms) |-> IF ms[j] = z THEN 0 ELSE ItemPar(n, it, ms[j])]]
+ByKind(a, b) == IF KindIdx(a.kind) < KindIdx(b.kind) THEN <<a, b>> ELSE <<b, a>>
 \* the first keyword of a pair: one of the "ends" spellings
 PairFirstOK(n, it) == it \in ItemsOf(n, it.kind, "ends")
 
@@ -158,9 +183,12 @@ ValidItem(n, it) ==
     /\ Cardinality({NormMode(n, it.modes[j]) : j \in 1..Len(it.modes)}) = Len(it.modes)   \* distinct MODES (not just keys)
     /\ it.form # "dict" => StrictlyIncreasing(it.modes)                \* a dict may list its keys in any order
     /\ IF it.form = "scalar" THEN it.modes = <<>> /\ Len(it.pars) = 1 ELSE Len(it.pars) = Len(it.modes)
-    /\ \A j \in 1..Len(it.pars) : it.pars[j] \in 1..9 /\ (it.kind \in BoolKinds => it.pars[j] = 1)
+    /\ \A j \in 1..Len(it.pars) : it.pars[j] \in 0..9 /\ (it.kind \in BoolKinds => it.pars[j] \in {0, 1})
+    /\ it.falsy \in FalsySpellings
+    /\ (it.form = "scalar" /\ it.pars[1] = 0) => it.falsy # "None"      \* a scalar None is "not given" at all
 ValidSpec(n, items) ==
-    /\ n \in 2..5 /\ Len(items) <= 2
+    /\ n \in 2..5 /\ Len(items) <= 3
+    /\ Cardinality({j \in 1..Len(items) : ItemModes(n, items[j]) # {}}) <= 2      \* at most two keywords that request something
     /\ \A j \in 1..Len(items) : ValidItem(n, items[j])
     /\ \A i, j \in 1..Len(items) : i < j => KindIdx(items[i].kind) < KindIdx(items[j].kind)
 
@@ -176,7 +204,10 @@ RunInits  == {"svd", "random", "user", "exact", "feasible"}
 \*          when tol_outer is loose) through an equivalent but infeasible parametrisation: a component
 \*          sign-flipped in two modes, scale moved between modes, a negative weight
 BuiltinInit(r) == r.init \in {"svd", "random"}
-RunTols   == {"default", "loose"}          \* tol_outer left at 1e-8 / set to 1e-2
+RunTols   == {"default", "loose"}
+\* members of a sequence through the class wrapper: each estimator constructed right before its fit,
+\* or ALL estimators constructed first and fitted afterwards (nothing may be shared between instances)
+RunBuilt  == {"at_call", "before_sequence"}          \* tol_outer left at 1e-8 / set to 1e-2
 RunOuter  == {0, 1, 2, 5}   \* 0: the initial factors are returned (built-in inits go through the prox first)
 RunInner  == {1, 10}         \* never 0: admm(n_iter_max=0) raises UnboundLocalError before returning
 RunData   == {"signed", "sparse", "allneg"}
@@ -207,6 +238,7 @@ UnderflowRegime(r) == r.dtype = "float32" /\ r.scale < 0
 SeqShifts == {0, 2, 4}
 ValidRun(n, r) == /\ r.shape \in RunShapes(n) /\ r.rank \in RunRanks /\ r.init \in RunInits
                   /\ ValidFixed(n, r.fixed) /\ r.via \in RunVia /\ ValidValues(r) /\ r.tol \in RunTols
+                  /\ r.built \in RunBuilt /\ (r.built = "before_sequence" => r.via = "class")
                   /\ r.outer \in RunOuter /\ r.inner \in RunInner /\ r.data \in RunData
 (* Which modes carry the obligation.  initialize_constrained_parafac documents that the built-in    *)
 (* initialisations are passed through the proximal operator "so that they satisfy the imposed       *)
@@ -380,15 +412,22 @@ SpecState(n, items) == [op |-> "spec", n |-> n, items |-> items, rej |-> Rejecte
 
 Init == \/ cfg \in {[op |-> "root", n |-> n, first |-> <<it>>] : <<n, it>> \in UNION {{<<n, it>> : it \in UNION {ItemsOf(n, k, "all") : k \in KindsFor(n)}} : n \in Orders}}
         \/ cfg \in {[op |-> "root", n |-> n, first |-> <<>>] : n \in Orders}
+        \/ cfg \in {[op |-> "offroot", n |-> n, first |-> it] : <<n, it>> \in UNION {{<<n, it>> : it \in UNION {ItemsOf(n, k, "plain") : k \in KindsFor(n)}} : n \in Orders}}
         \/ cfg \in {[op |-> "colroot", x |-> x] : x \in Columns}
         \/ cfg \in {[op |-> "col4", x |-> x] : x \in [1..4 -> ColVals]}
-        \/ cfg \in {[op |-> "rundomain", n |-> n, shapes |-> RunShapes(n), ranks |-> RunRanks, inits |-> RunInits, fixed |-> RunFixed(n), via |-> RunVia, scales |-> RunScales, dtypes |-> RunDtypes, shifts |-> SeqShifts, tols |-> RunTols,
+        \/ cfg \in {[op |-> "rundomain", n |-> n, shapes |-> RunShapes(n), ranks |-> RunRanks, inits |-> RunInits, fixed |-> RunFixed(n), via |-> RunVia, scales |-> RunScales, dtypes |-> RunDtypes, shifts |-> SeqShifts, tols |-> RunTols, falsy |-> FalsySpellings, built |-> RunBuilt,
                      outer |-> RunOuter, inner |-> RunInner, data |-> RunData] : n \in Orders}
 Next == \/ /\ cfg.op = "root"
            /\ \/ cfg' = SpecState(cfg.n, cfg.first)
               \/ /\ cfg.first # <<>> /\ cfg.first[1].kind \in PairKinds(cfg.n) /\ PairFirstOK(cfg.n, cfg.first[1])
                  /\ cfg' \in {SpecState(cfg.n, cfg.first \o <<it>>) :
                                 it \in UNION {ItemsOf(cfg.n, k, SecondKeyOrders) : k \in {k \in PairKinds(cfg.n) : KindIdx(k) > KindIdx(cfg.first[1].kind)}}}
+        \* falsy-but-given: every plain single keyword with an "off" companion keyword, and with a falsy entry of its own
+        \/ /\ cfg.op = "offroot"
+           /\ \/ cfg' \in {SpecState(cfg.n, ByKind(cfg.first, off)) :
+                             off \in UNION {OffItems(cfg.n, k) : k \in OffKinds(cfg.n) \ {cfg.first.kind}}}
+              \/ /\ cfg.first.form # "scalar" /\ ItemModes(cfg.n, cfg.first) # Modes(cfg.n)
+                 /\ cfg' = SpecState(cfg.n, <<Mixed(cfg.n, cfg.first)>>)
         \/ /\ cfg.op = "colroot"
            /\ cfg' \in {[op |-> "cols", x |-> cfg.x, y |-> y] : y \in Columns}
 Spec == Init /\ [][Next]_cfg
